@@ -779,6 +779,12 @@ pub fn validate_iban(iban: &str) -> Result<(), ParseError> {
         });
     }
 
+    if !iban.is_ascii() {
+        return Err(ParseError::InvalidFormat {
+            message: "IBAN must contain only letters and digits".to_string(),
+        });
+    }
+
     // First two characters must be country code (letters)
     if !iban[0..2].chars().all(|c| c.is_uppercase()) {
         return Err(ParseError::InvalidFormat {
